@@ -989,7 +989,7 @@ func (e *CEnv) call(x *ast.CallExpr) CVal {
 			cfail("called(Callee)")
 		}
 		for _, ec := range e.fv.errCalls {
-			if shortCallee(ec.callee) == id.Name {
+			if sc := shortCallee(ec.callee); sc == id.Name || strings.HasSuffix(sc, "."+id.Name) {
 				if hit, ok := e.st.heap[fmt.Sprintf("X|%d", ec.id)]; ok {
 					return CVal{T: hit, S: sBool, Typ: boolT}
 				}
